@@ -178,15 +178,11 @@ func c07Gen(r *Rng, tier string, idx int) (string, func() string) {
 		if idx%417 == 60 {
 			return c07WRCase(r, "LJH3", false, f, 0, 1)
 		}
-		if idx == 90+417 {
-			return c07WRCase(r, "LJH22", false, f, 0, 2)
-		}
+
 	} else if idx == 30 || idx == 60 || idx == 90 {
 		return c07WRCase(r, []string{"LJH22", "LJH3", "OFF"}[idx/30-1], false, f, 3000, 0)
 	} else if idx == 120 || idx == 121 {
 		return c07WRCase(r, "LJH3", false, f, 0, 1)
-	} else if idx == 150 {
-		return c07WRCase(r, "LJH22", false, f, 0, 2)
 	}
 	switch c := r.Intn(1000); {
 	case c >= 940:
@@ -1048,7 +1044,9 @@ func c07WRCase(r *Rng, kind string, hot bool, f c07Facts, long int, big int) (st
 		}
 		phases = append(phases, c07Phase{kind: "C"})
 	} else if big == 2 {
-		// LJH2.2 (fixed record length): EVERY record is about / more than 64 KiB (16+2n bytes)
+		// LJH2.2 (fixed record length): EVERY record is about / more than 64 KiB (16+2n bytes).  NOT scheduled:
+		// filling the 1000-deep queue takes 65 MB per stall, too much for the list-based Lean driver; the
+		// same asyncbufio.Write is reached with long LJH3 records and direct writes (kept for manual runs).
 		kind = "LJH22"
 		size = r.Pick(32752, 32759, 32760, 32761, 32768, 35000)
 		phases = []c07Phase{{kind: "free", n: 2}, {kind: "stall", n: r.Range(1, 4)}, {kind: "free", n: 1}, {kind: "F"}, {kind: "C"}}
